@@ -63,3 +63,22 @@ Theorem C05_expectation_table_is_the_code : forall mp mr jp key,
   expectation mp mr jp key = expectation_gen mp mr jp key.
 Proof. exact expectation_is_the_generated_table. Qed.
 Print Assumptions C05_expectation_table_is_the_code.
+
+(* the REAL cache (internal/caching.GroupedSet: two generations per Set, least-recently-used group eviction, pooled Sets),
+   modelled exactly in Gpbft/CacheModel.v and replayed against the implementation: after ANY history of Add / Contains /
+   RemoveGroupsLessThan, with any capacities, a positive Contains(g, k) -- and an Add(g, k) reporting "already there" --
+   was preceded by an Add(g, k).  Eviction can only forget.  Together with C05_history_independent (the verdict is the same
+   for ANY cache all of whose entries were validated) no eviction policy can make a verdict depend on the history. *)
+From F3 Require CacheModel CacheModelProofs.
+Theorem C05_cache_contains_only_what_was_added : forall mg ms ops g k,
+  snd (CacheModel.g_contains (CacheModelProofs.crun mg ms CacheModel.g_empty ops) g k) = true -> In (CacheModel.CAdd g k) ops.
+Proof. exact CacheModelProofs.contains_only_what_was_added. Qed.
+Print Assumptions C05_cache_contains_only_what_was_added.
+Theorem C05_cache_add_reports_old_only_if_added : forall mg ms ops g k,
+  snd (CacheModel.g_add mg ms (CacheModelProofs.crun mg ms CacheModel.g_empty ops) g k) = false -> In (CacheModel.CAdd g k) ops.
+Proof. exact CacheModelProofs.add_reports_old_only_if_added. Qed.
+Print Assumptions C05_cache_add_reports_old_only_if_added.
+Theorem C05_cache_added_is_contained : forall mg ms c g k,
+  snd (CacheModel.g_contains (fst (CacheModel.g_add mg ms c g k)) g k) = true.
+Proof. exact CacheModelProofs.added_is_contained. Qed.
+Print Assumptions C05_cache_added_is_contained.
